@@ -1,5 +1,5 @@
 """Property -> harnesses registry."""
-import h_doc, h_c13, h_lib, h_squash, h_pos, h_paths
+import h_doc, h_c13, h_lib, h_squash, h_pos, h_paths, h_titles
 
 def doc(prog, tier):
     return h_doc.DocHarness(prog, tier)
@@ -55,7 +55,13 @@ POSB_SPEC = {'make': pos_blocks, 'time_limit': {'quick': 300, 'thorough': 1200}}
 
 PATHS_SPEC = {'make': lambda prog, tier: h_paths.PathsHarness(prog, tier), 'time_limit': {'quick': 420, 'thorough': 2400}}
 
+TITLES_SPEC = {'make': lambda prog, tier: h_titles.TitlesHarness(prog, tier), 'time_limit': {'quick': 300, 'thorough': 600}}
+
 PROPS = {
+    'C06': {'specs': [TITLES_SPEC, LIB_SPEC], 'notes': COMMON + [
+        'decision kernel only: link kind x position x url form x (linking directory, target directory) x target has heading; output read from the projected GraphBlocks; '
+        'the final "[text](url)" string and the refs_extension concatenation are outside',
+        'relative-path join / relative / parent are native models validated against the real crate by the translator validation']},
     'C18': {'specs': [PATHS_SPEC], 'notes': COMMON + [
         'claimed for the path enumeration and the rank ordering of Graph::search_paths; fuzzy scores (SkimMatcherV2), the 100-entry cut-off at real sizes and symbol Urls are outside',
         'oracle: independent forward enumeration over the input documents (root notes = notes nobody includes; steps heading -> sub-heading, heading -> top-level heading of a note included by a direct block reference; no note twice on a path)']},
